@@ -35,6 +35,11 @@ ConcurrentTransientTopic<T, S>::operator=(
 }
 
 template <typename T, typename S>
+inline void ConcurrentTransientTopic<T, S>::reserve(size_t size) noexcept {
+  _slots.reserve(size);
+}
+
+template <typename T, typename S>
 template <typename U, typename ::std::enable_if<
                           ::std::is_assignable<T&, U>::value, int>::type>
 inline void ConcurrentTransientTopic<T, S>::publish(U&& value) noexcept {
@@ -336,6 +341,12 @@ inline ConcurrentTransientTopic<T, S>::ConsumeRange::ConsumeRange(
     : _snapshot(snapshot), _begin(begin), _size(size) {}
 
 template <typename T, typename S>
+inline ConcurrentTransientTopic<T, S>::ConsumeRange::operator bool()
+    const noexcept {
+  return _size > 0;
+}
+
+template <typename T, typename S>
 inline size_t ConcurrentTransientTopic<T, S>::ConsumeRange::size()
     const noexcept {
   return _size;
@@ -357,6 +368,12 @@ inline const T& ConcurrentTransientTopic<T, S>::ConsumeRange::operator[](
 
 ///////////////////////////////////////////////////////////////////////////////
 // ConcurrentTransientTopic::Consumer begin
+template <typename T, typename S>
+inline ConcurrentTransientTopic<T, S>::Consumer::operator bool()
+    const noexcept {
+  return _queue != nullptr;
+}
+
 template <typename T, typename S>
 inline T* ConcurrentTransientTopic<T, S>::Consumer::consume() noexcept {
   auto range = consume(1);
